@@ -11,6 +11,7 @@ DATA = 0x50000000
 STACK_BASE = 0x60000000
 STACK_SIZE = 0x1000
 STACK_TOP = STACK_BASE + STACK_SIZE
+STACK_FILL = b"\x5a"
 
 
 def encode(prog):
@@ -19,7 +20,7 @@ def encode(prog):
     lens = []
     for ins in prog:
         k = ins["k"]
-        lens.append({"RT": 4, "PU": 2, "DEC": 1, "JNZ": 2, "JMP": 2, "LOOP": 2, "ST": 7, "ST4": 10, "LD": 5, "PATCH": 7, "PATCHS": 1}[k])
+        lens.append({"RT": 4, "PU": 2, "DEC": 1, "JNZ": 2, "JMP": 2, "LOOP": 2, "ST": 7, "ST4": 10, "LD": 5, "PATCH": 7, "PATCHS": 1, "PUM": 6, "INCM": 6}[k])
     offs = [0]
     for l in lens:
         offs.append(offs[-1] + l)
@@ -44,6 +45,10 @@ def encode(prog):
             out += b"\xc7\x05" + ins["a"].to_bytes(4, "little") + bytes([v, v + 1, v + 2, v + 3])
         elif k == "LD":
             out += b"\xa0" + ins["a"].to_bytes(4, "little")
+        elif k == "PUM":
+            out += b"\xff\x35" + ins["a"].to_bytes(4, "little")
+        elif k == "INCM":
+            out += b"\xfe\x05" + ins["a"].to_bytes(4, "little")
         elif k == "PATCHS":
             out += b"\xaa"          # STOSB: [EDI] := AL, EDI += 1 (EDI is preset on the target immediate)
         elif k == "PATCH":
@@ -77,7 +82,7 @@ class Player(object):
             j.jit.offset_to_jitted_func = BoundedDict(cache_max, delete_cb=j.jit.offset_to_jitted_func._delete_cb)
         j.vm.add_memory_page(CODE, PAGE_READ | PAGE_WRITE, self.code + b"\xcc" * 8, "code")
         if item["stackok"]:
-            j.vm.add_memory_page(STACK_BASE, PAGE_READ | PAGE_WRITE, b"\x00" * STACK_SIZE, "stack")
+            j.vm.add_memory_page(STACK_BASE, PAGE_READ | PAGE_WRITE, STACK_FILL * STACK_SIZE, "stack")
         self.map_pages(item["pages"])
         self.hits = []
         self.bps = {}
@@ -109,7 +114,7 @@ class Player(object):
         PAGE_READ, PAGE_WRITE, _ = self.csts
         for p in pages:
             content = bytes((p["base"] + i) % 251 for i in range(p["size"]))
-            self.j.vm.add_memory_page(p["base"], PAGE_READ | (PAGE_WRITE if p["perm"] == "rw" else 0), content, "data")
+            self.j.vm.add_memory_page(p["base"], {"rw": PAGE_READ | PAGE_WRITE, "ro": PAGE_READ, "wo": PAGE_WRITE}[p["perm"]], content, "data")
 
     def set_regs(self):
         j, it = self.j, self.item
@@ -153,7 +158,12 @@ class Player(object):
         else:
             stop = "other"
         eax = j.cpu.EAX
-        return {"stop": stop, "pc": slot, "acchi": eax >> 16, "acclo": eax & 0xffff, "cnt": j.cpu.ECX & 0xffff, "stack": stack,
+        # everything below the stack pointer still has the fill value (nothing of this machine writes there)
+        below = "untouched"
+        if (self.item["stackok"] or self.repaired) and STACK_BASE < esp <= STACK_TOP:
+            if j.vm.get_mem(STACK_BASE, esp - STACK_BASE).strip(STACK_FILL):
+                below = "modified"
+        return {"below": below, "stop": stop, "pc": slot, "acchi": eax >> 16, "acclo": eax & 0xffff, "cnt": j.cpu.ECX & 0xffff, "stack": stack,
                 "window": window, "hits": list(self.hits), "fault": bool(self.faulted or (exc & VIOL)), "crashed": crashed}
 
     repaired = False
@@ -210,7 +220,7 @@ class Player(object):
             elif k == "repair":
                 self.repaired = True
                 if not self.item["stackok"] and not j.vm.is_mapped(STACK_BASE, 1):
-                    j.vm.add_memory_page(STACK_BASE, PAGE_READ | PAGE_WRITE, b"\x00" * STACK_SIZE, "stack")
+                    j.vm.add_memory_page(STACK_BASE, PAGE_READ | PAGE_WRITE, STACK_FILL * STACK_SIZE, "stack")
                 have = {p["base"] for p in self.item["pages"]}
                 for p in self.item["repaired"]:
                     if p["base"] in have:
@@ -225,7 +235,7 @@ class Player(object):
                     if p["perm"] == "rw":
                         j.vm.set_mem(p["base"], bytes((p["base"] + i) % 251 for i in range(p["size"])))
                 if self.item["stackok"]:
-                    j.vm.set_mem(STACK_BASE, b"\x00" * STACK_SIZE)
+                    j.vm.set_mem(STACK_BASE, STACK_FILL * STACK_SIZE)
                 self.clear_faults()
         return obs
 
